@@ -484,8 +484,9 @@ def oracle(fw, case, log):
     for e in log:
         if e[0] == "op": cur = e[1]; segs[cur] = []
         elif cur is not None: segs[cur].append(e)
-    reg_of_inv, active_reg, j0 = {}, {}, True
+    reg_of_inv, active_reg, j0, active_at = {}, {}, True, {}
     for i, o in enumerate(ops):
+        active_at[i] = active_reg.copy() if o[0] == "inv" else None
         if o[0] in ("reg", "regobj") and j0:
             for r in reg_entries(o):
                 if r[1] not in active_reg: active_reg[r[1]] = r
@@ -502,8 +503,9 @@ def oracle(fw, case, log):
     # 0. an endpoint that received something else than the caller's args/kwargs: report that and nothing derived from it
     for e in log:
         if e[0] == "called" and e[4][0] == "bad":
-            r = active_reg_final.get(e[3])
-            opts = f"check_types={bool(r[4])}/{r[6]}" if r is not None and len(r) >= 7 else "plain"
+            r = (active_at.get(opidx.get(id(e), -1)) or {}).get(e[3]) or active_reg_final.get(e[3])
+            flav = next((o[2] for o in ops if o[0] == "regobj" and r is not None and len(r) > 8 and o[1] == r[8]), None)
+            opts = (f"object/{flav}" if flav else f"check_types={bool(r[4])}/{r[6]}") if r is not None and len(r) >= 7 else "plain"
             return [(f"session.invocation/argument-fidelity/{opts}",
                      f"endpoint of registration {e[3]} ({opts}) received {e[4][1]} instead of the caller's args/kwargs", e[3])]
     # 1. exactly one terminal reply per accepted invocation (histories end with everything finished)
